@@ -40,6 +40,12 @@ def sem_fixed():
     add(Item("FxFlatEmpty", "FxFlatEmpty", "named", fields=[
         Field("fx_k", prim("u8")), Field("fx_z", user(s0), flatten=True)]))
     add(Item("FxOnlyFlatEmpty", "FxOnlyFlatEmpty", "named", fields=[Field("fx_z2", user(s0), flatten=True)]))
+    # fixed: #[ts(inline)] on a newtype variant's field in adjacently / internally tagged enums
+    s1 = add(Item("FxInner", "FxInner", "named", fields=[Field("fx_i1", prim("u8"))]))
+    add(Item("FxAdjInline", "FxAdjInline", "enum", tag="fxa", content="fxc", variants=[
+        Variant("FxN", "newtype", [Field(None, user(s1), inline=True)])]))
+    add(Item("FxIntInline", "FxIntInline", "enum", tag="fxi", variants=[
+        Variant("FxM", "newtype", [Field(None, user(s1), inline=True)]), Variant("FxO", "unit")]))
     g.items = items
     g.make_entries()
     return g
